@@ -1136,8 +1136,9 @@ PROPS = {
     'C03': {
         'run': run_C03,
         'pinned': ['C03_fast_in_call_safe_R', 'C03_fast_out_call_safe_R', 'C03_fast_in_run_safe_R', 'C03_fast_out_run_safe_R',
-                   'C03_ctor_fast_in_R', 'C03_ctor_fast_out_R', 'C03_fast_window_R'],
-        'unproved': ['SincFixedIn/SincFixedOut and the three FFT types: safety is established by the bit-exact model on every sampled history, not by theorem',
+                   'C03_ctor_fast_in_R', 'C03_ctor_fast_out_R', 'C03_fast_window_R',
+                   'C03_sinc_in_call_safe_R', 'C03_sinc_in_run_safe_R', 'C03_ctor_sinc_in_R'],
+        'unproved': ['SincFixedOut and the three FFT types: safety is established by the bit-exact model on every sampled history, not by theorem',
                      'ratio changes (ramped or stepped): outside the constant-ratio theorem; the executable envelope of tools/gens.py separates '
                      'histories expected to be safe from the recorded finding classes',
                      'floating-point rounding inside the loops (theorems are over R)'],
